@@ -1,8 +1,9 @@
 (* C10 — pinned property theorems. This file contains statements, `exact`, and
    Print Assumptions only. The pins in tools/pins/C10.v re-check the statements. *)
 From Coq Require Import List NArith ZArith Bool Sorted Permutation.
-From V.gen Require Consts.
+From V.gen Require Consts DialErrors.
 From V.C10 Require Import Model Proofs.
+From V.C10 Require ErrNames.
 Import ListNotations.
 
 (* Bound: in every reachable book (any configuration, any capacity, any history of additions,
@@ -48,13 +49,14 @@ Proof. exact is_local_mono. Qed.
 Print Assumptions C10_listen_monotone.
 
 (* Attributable, not local, dialable — for everything remembered after any history (additions,
-   dial results, whole dial(peer) episodes, further listen addresses, held connections) that
-   starts after the listen addresses L0 were registered, provided the dial results reported
-   outside dial(peer) episodes concern addresses acceptable for that peer. *)
+   dial results, whole dial(peer) and dial_address episodes, further listen addresses, held
+   connections, raw inserts) that starts after the listen addresses L0 were registered, provided
+   the dial results reported outside dial(peer) episodes, the raw inserts and the addresses handed
+   to dial_address concern addresses acceptable for that peer. *)
 Theorem C10_remembered_acceptable :
   forall c k L0 h p s a z,
-    Forall (op_wf (acceptable c L0)) h ->
-    get p (bk (fst (run c k (mkState [] L0 0) h))) = Some s -> In (a, z) s ->
+    Forall (op_ok c L0) h ->
+    get p (bk (fst (run c k (mkState [] L0 0 []) h))) = Some s -> In (a, z) s ->
     (supported c a = true /\ is_local c L0 a = false /\ last a (Other 0) = P2p p) /\
     (enabled c (route c a) = true /\
      exists ho port, parse (route c a) a = Some (ho, port, Some p) /\
@@ -62,10 +64,47 @@ Theorem C10_remembered_acceptable :
 Proof. exact run_acceptable. Qed.
 Print Assumptions C10_remembered_acceptable.
 
+(* Without any condition on what dial_address is handed (its own address check is weaker than
+   add_known_address: no unspecified-host and no is_local filter, only literal listen addresses are
+   refused): every remembered address still names its peer and is parsed, with that peer, by the
+   enabled transport it is routed to. *)
+Theorem C10_remembered_dialable :
+  forall c k L0 h p s a z,
+    Forall (op_weak c) h ->
+    get p (bk (fst (run c k (mkState [] L0 0 []) h))) = Some s -> In (a, z) s ->
+    last a (Other 0) = P2p p /\ enabled c (route c a) = true /\
+    exists ho port, parse (route c a) a = Some (ho, port, Some p).
+Proof. exact run_remembered. Qed.
+Print Assumptions C10_remembered_dialable.
+
+(* What dial_address lets through (and stores with score 0 before dialing): free outbound
+   capacity, not literally a registered listen address, and an address that names q and is parsed
+   with q by the enabled transport t it is handed to. *)
+Theorem C10_dial_address_filter :
+  forall c st a t q,
+    dial_addr_check c st a = DAOk t q ->
+    free_capacity c st 0 <> None /\
+    existsb (maddr_eqb a) (listen_set c (lst st)) = false /\
+    route c a = t /\
+    (last a (Other 0) = P2p q /\ enabled c (route c a) = true /\
+     exists ho port, parse (route c a) a = Some (ho, port, Some q)).
+Proof. exact dial_addr_ok_spec. Qed.
+Print Assumptions C10_dial_address_filter.
+
+(* The two address checks agree on shapes: whatever add_known_address would accept, dial_address
+   dials through the same transport (given capacity, unless it literally is a listen address). *)
+Theorem C10_supported_implies_dial_address :
+  forall c st a,
+    supported c a = true -> free_capacity c st 0 <> None ->
+    existsb (maddr_eqb a) (listen_set c (lst st)) = false ->
+    exists q, last a (Other 0) = P2p q /\ dial_addr_check c st a = DAOk (route c a) q.
+Proof. exact supported_dial_addr. Qed.
+Print Assumptions C10_supported_implies_dial_address.
+
 (* ... and that invariant (with the bound and key uniqueness) is inductive from any state. *)
 Theorem C10_step_preserves :
   forall c k L0 st o,
-    StInv k L0 (acceptable c L0) st -> op_wf (acceptable c L0) o ->
+    StInv k L0 (acceptable c L0) st -> op_ok c L0 o ->
     StInv k L0 (acceptable c L0) (fst (step c k st o)).
 Proof. exact step_acceptable. Qed.
 Print Assumptions C10_step_preserves.
@@ -124,6 +163,17 @@ Theorem C10_rediscovery_keeps :
 Proof. exact insert_all_rediscovery. Qed.
 Print Assumptions C10_rediscovery_keeps.
 
+(* ... and more generally: as long as the additions fit under the bound, offering any addresses
+   (new ones, known ones, in any order) never changes a recorded score - a dial failure or success
+   is not erased by later rediscovery. (At the bound a record can only disappear as the reported
+   minimal victim: C10_insert_frame, C10_evict_min.) *)
+Theorem C10_additions_keep_scores :
+  forall k s l vs b z,
+  NoDup (keys s) -> (length s + length l <= cap k)%nat -> find b s = Some z ->
+  find b (fst (insert_all k s l vs)) = Some z /\ snd (insert_all k s l vs) = false.
+Proof. exact insert_all_keeps_scores. Qed.
+Print Assumptions C10_additions_keep_scores.
+
 (* Dial order: addresses(limit) has min(limit, |store|) entries of the store in non-increasing
    score order, and no address left out scores higher than one that was taken. *)
 Theorem C10_dial_order :
@@ -164,8 +214,8 @@ Print Assumptions C10_dial_order_validator_complete.
    every address went to the installed transport it is routed to and names the peer, and the
    store afterwards is the recorded outcome. *)
 Theorem C10_dial_tries :
-  forall c k st peer outcome tcp ws t w st',
-  step c k st (ODial peer outcome tcp ws) = (st', RDial (DTried t w)) ->
+  forall c k st peer outcome errs tcp ws t w st',
+  step c k st (ODial peer outcome errs tcp ws) = (st', RDial (DTried t w)) ->
   let s := get_or_empty peer (bk st) in
   exists limit,
     free_capacity c st (length s) = Some limit /\
@@ -175,7 +225,7 @@ Theorem C10_dial_tries :
     Permutation (merge_desc t w) (t ++ w) /\
     Forall (fun a => In a (keys s) /\ names peer a = true /\ route c a = TTcp /\ enabled c TTcp = true) tcp /\
     Forall (fun a => In a (keys s) /\ names peer a = true /\ route c a = TWs /\ enabled c TWs = true) ws /\
-    st' = set_bk st (put peer (dial_outcome k s peer outcome tcp ws) (bk st)).
+    st' = set_bk st (put peer (dial_outcome k s peer outcome errs tcp ws) (bk st)).
 Proof. exact step_dial_tried. Qed.
 Print Assumptions C10_dial_tries.
 
@@ -189,28 +239,214 @@ Theorem C10_free_capacity :
 Proof. exact free_capacity_spec. Qed.
 Print Assumptions C10_free_capacity.
 
-(* All attempts of a dial time out: exactly the tried addresses are re-scored, to the failure
-   score. *)
+(* All attempts of a dial fail, attempt i with error kind errs[i mod |errs|]: exactly the tried
+   addresses are re-scored, each to the score of the error kind its attempt failed with. *)
 Theorem C10_dial_all_fail :
-  forall k s peer tcp ws b,
-  NoDup (keys s) -> (forall a, In a (tcp ++ ws) -> In a (keys s)) -> sc_failure k <> 0%Z ->
-  find b (dial_outcome k s peer 0 tcp ws) =
-    if existsb (maddr_eqb b) (tcp ++ ws) then Some (sc_failure k) else find b s.
+  forall k s peer errs tcp ws b,
+  NoDup (keys s) -> NoDup (tcp ++ ws) -> (forall a, In a (tcp ++ ws) -> In a (keys s)) ->
+  (forall e, error_score k e <> 0%Z) ->
+  find b (dial_outcome k s peer 0 errs tcp ws) =
+    match lookup_err b (tag_errs errs 0 tcp ++ tag_errs errs (length tcp) ws) with
+    | Some e => Some (error_score k e)
+    | None => find b s
+    end.
 Proof. exact dial_all_fail_find. Qed.
 Print Assumptions C10_dial_all_fail.
 
-(* Attempt j of a transport's list succeeds after the earlier ones timed out: the address used
-   gets the established score, the earlier ones the failure score, nothing else changes. *)
+(* Attempt j of a transport's list succeeds after the earlier ones failed: the address used gets
+   the established score, the earlier ones the score of their error kind, nothing else changes. *)
 Theorem C10_dial_success :
-  forall k s peer l j a b,
-  NoDup (keys s) -> (forall x, In x l -> In x (keys s)) ->
-  nth_error l j = Some a -> names peer a = true ->
-  sc_failure k <> 0%Z -> sc_established k <> 0%Z ->
+  forall k s peer l j a e0 b,
+  NoDup (keys s) -> NoDup (map fst l) -> (forall x, In x (map fst l) -> In x (keys s)) ->
+  nth_error l j = Some (a, e0) -> names peer a = true ->
+  (forall e, error_score k e <> 0%Z) -> sc_established k <> 0%Z ->
   find b (succeed_at k s peer l j) =
     if maddr_eqb b a then Some (sc_established k)
-    else if existsb (maddr_eqb b) (firstn j l) then Some (sc_failure k) else find b s.
+    else match lookup_err b (firstn j l) with
+         | Some e => Some (error_score k e)
+         | None => find b s
+         end.
 Proof. exact succeed_at_find. Qed.
 Print Assumptions C10_dial_success.
+
+(* ---------- the kind of a dial failure ---------- *)
+
+(* The model's DialError has exactly the variants of src/error.rs, in order, two levels deep
+   (names and cfg gates extracted from the source on every check), and the wire codes used by the
+   correspondence run enumerate it without loss. *)
+Theorem C10_error_variants_in_sync :
+  ErrNames.model_variants = DialErrors.variants /\ ErrNames.model_gates = DialErrors.gates.
+Proof. exact ErrNames.variants_in_sync. Qed.
+Print Assumptions C10_error_variants_in_sync.
+
+(* The manager writes into a peer's address store at exactly five places (extracted from
+   src/transport/manager/*.rs on every check), each covered by a model operation (see ErrNames.v);
+   no code path replaces or removes a peer's context. *)
+Theorem C10_store_sites_in_sync : ErrNames.model_store_sites = DialErrors.store_sites.
+Proof. exact ErrNames.store_sites_in_sync. Qed.
+Print Assumptions C10_store_sites_in_sync.
+
+Theorem C10_error_kinds_enumerated :
+  forall e, In e all_dial_errors /\ err_of_code (err_code e) = Some e.
+Proof. intro e. split; [apply all_dial_errors_complete | apply err_code_roundtrip]. Qed.
+Print Assumptions C10_error_kinds_enumerated.
+
+(* Every failure kind maps (by the arms of AddressStore::error_score as they stand in the source)
+   to a strictly negative i32: it can never be mistaken for a rediscovery (score 0) and ranks the
+   address below every untested one. *)
+Theorem C10_error_score_negative :
+  forall e, (error_score default_scores e < 0)%Z /\ in_i32 (error_score default_scores e).
+Proof. intro e. split; [apply error_score_negative | apply error_score_i32]. Qed.
+Print Assumptions C10_error_score_negative.
+
+(* AddressError is the only kind that bans an address (i32::MIN); every other kind gets
+   CONNECTION_FAILURE. *)
+Theorem C10_address_error_only_banned :
+  forall e, error_score default_scores e = I32_MIN <-> exists ae, e = EAddress ae.
+Proof. exact error_score_banned_iff. Qed.
+Print Assumptions C10_address_error_only_banned.
+
+Theorem C10_error_score_table :
+  forall e, error_score default_scores e =
+    if is_address_error e then (- Z.of_N Consts.SCORE_ADDRESS_FAILURE_NEG)%Z
+    else (- Z.of_N Consts.SCORE_CONNECTION_FAILURE_NEG)%Z.
+Proof. exact error_score_table. Qed.
+Print Assumptions C10_error_score_table.
+
+(* A success is recorded with a strictly positive score. *)
+Theorem C10_success_score_positive :
+  (0 < sc_established default_scores)%Z /\ in_i32 (sc_established default_scores) /\
+  (0 <= bonus default_scores)%Z.
+Proof. exact established_positive. Qed.
+Print Assumptions C10_success_score_positive.
+
+(* Whatever the kind, a failure on a stored address (whatever its score) re-scores exactly that
+   address to the score of the kind: the key set and all other scores are unchanged. *)
+Theorem C10_failure_rescores_any_kind :
+  forall s a e v z0,
+  find a s = Some z0 ->
+  let sc := error_score default_scores e in
+  let s' := fst (insert default_scores s a sc v) in
+  (sc < 0)%Z /\ snd (insert default_scores s a sc v) = Updated /\
+  find a s' = Some sc /\ keys s' = keys s /\ forall b, b <> a -> find b s' = find b s.
+Proof. exact failure_rescores_any_kind. Qed.
+Print Assumptions C10_failure_rescores_any_kind.
+
+(* ... and at the level of the whole state: update_address_on_dial_failure touches one address of
+   one peer; all other peers, the listen and public addresses and the held connections are
+   untouched. *)
+Theorem C10_dial_failure_step :
+  forall c k st a e v p z0,
+  last a (Other 0) = P2p p -> find a (get_or_empty p (bk st)) = Some z0 -> error_score k e <> 0%Z ->
+  let s := get_or_empty p (bk st) in
+  let st' := fst (step c k st (ODialFailure a e v)) in
+  (exists s', get p (bk st') = Some s' /\ find a s' = Some (error_score k e) /\ keys s' = keys s /\
+              forall b, b <> a -> find b s' = find b s) /\
+  (forall q, q <> p -> get q (bk st') = get q (bk st)) /\
+  lst st' = lst st /\ held st' = held st /\ pubs st' = pubs st.
+Proof. exact step_dial_failure_known. Qed.
+Print Assumptions C10_dial_failure_step.
+
+(* The same for update_address_on_connection_established on the dialing side. *)
+Theorem C10_established_step :
+  forall c k st peer a v z0,
+  find (with_peer peer a) (get_or_empty peer (bk st)) = Some z0 -> sc_established k <> 0%Z ->
+  let s := get_or_empty peer (bk st) in
+  let st' := fst (step c k st (OEstablished peer a false v)) in
+  (exists s', get peer (bk st') = Some s' /\ find (with_peer peer a) s' = Some (sc_established k) /\
+              keys s' = keys s /\ forall b, b <> with_peer peer a -> find b s' = find b s) /\
+  (forall q, q <> peer -> get q (bk st') = get q (bk st)) /\
+  lst st' = lst st /\ held st' = held st /\ pubs st' = pubs st.
+Proof. exact step_established_known. Qed.
+Print Assumptions C10_established_step.
+
+(* dial_address end to end on an address that is already stored: the stored record is kept
+   (score 0 is a rediscovery) and the result of the dial - a DialFailure of any kind or the
+   established connection - re-scores exactly it. *)
+Theorem C10_dial_address_known_step :
+  forall c k st a res vs t q z0,
+  dial_addr_check c st a = DAOk t q -> find a (get_or_empty q (bk st)) = Some z0 ->
+  let sc := match res with Some e => error_score k e | None => sc_established k end in
+  sc <> 0%Z ->
+  let s := get_or_empty q (bk st) in
+  let st' := fst (step c k st (ODialAddr a res vs)) in
+  (exists s', get q (bk st') = Some s' /\ find a s' = Some sc /\ keys s' = keys s /\
+              forall b, b <> a -> find b s' = find b s) /\
+  (forall p, p <> q -> get p (bk st') = get p (bk st)) /\
+  lst st' = lst st /\ held st' = held st /\ pubs st' = pubs st.
+Proof. exact step_dial_addr_known. Qed.
+Print Assumptions C10_dial_address_known_step.
+
+(* ... and on a new address while there is room: it is remembered with the score of the result. *)
+Theorem C10_dial_address_new_step :
+  forall c k st a res vs t q,
+  dial_addr_check c st a = DAOk t q -> find a (get_or_empty q (bk st)) = None ->
+  (length (get_or_empty q (bk st)) < cap k)%nat ->
+  let sc := match res with Some e => error_score k e | None => sc_established k end in
+  sc <> 0%Z ->
+  let s := get_or_empty q (bk st) in
+  let st' := fst (step c k st (ODialAddr a res vs)) in
+  (exists s', get q (bk st') = Some s' /\ find a s' = Some sc /\ keys s' = keys s ++ [a] /\
+              forall b, b <> a -> find b s' = find b s) /\
+  (forall p, p <> q -> get p (bk st') = get p (bk st)).
+Proof. exact step_dial_addr_new. Qed.
+Print Assumptions C10_dial_address_new_step.
+
+(* i32: the public-address bonus saturates at both ends ... *)
+Theorem C10_saturation :
+  forall a b,
+  in_i32 (sat_add a b) /\
+  ((a + b <= I32_MIN)%Z -> sat_add a b = I32_MIN) /\
+  ((I32_MAX <= a + b)%Z -> sat_add a b = I32_MAX) /\
+  ((I32_MIN <= a + b <= I32_MAX)%Z -> sat_add a b = (a + b)%Z).
+Proof. exact sat_add_spec. Qed.
+Print Assumptions C10_saturation.
+
+(* ... and no stored score ever leaves the i32 range, in any history (raw inserts carry an i32). *)
+Theorem C10_scores_in_i32 :
+  forall c h p s a z,
+  Forall op_i32 h -> get p (bk (final c default_scores h)) = Some s -> In (a, z) s -> in_i32 z.
+Proof. exact final_scores_i32. Qed.
+Print Assumptions C10_scores_in_i32.
+
+(* ---------- the node's own addresses: the /p2p suffix rule ---------- *)
+
+(* PublicAddresses: after any history every public address is non-empty and ends in
+   /p2p/<local peer>. *)
+Theorem C10_public_addresses_local :
+  forall c k h a, In a (pubs (final c k h)) ->
+    a <> [] /\ last a (Other 0) = P2p (local_peer c).
+Proof. exact final_pubs. Qed.
+Print Assumptions C10_public_addresses_local.
+
+(* add_address: refused when empty or naming another peer; otherwise the address is stored as is
+   when it ends in /p2p/<local>, with the local id appended when it ends in no peer id, and the
+   result says whether it is new. *)
+Theorem C10_public_add :
+  forall c ps a,
+  match snd (public_add c ps a) with
+  | PubEmpty => a = [] /\ fst (public_add c ps a) = ps
+  | PubDifferent => (exists q, last a (Other 0) = P2p q /\ q <> local_peer c) /\ fst (public_add c ps a) = ps
+  | PubAdded new =>
+      a <> [] /\ pub_ok c (public_form c a) /\
+      new = negb (existsb (maddr_eqb (public_form c a)) ps) /\
+      fst (public_add c ps a) = if new then ps ++ [public_form c a] else ps
+  end.
+Proof. exact public_add_spec. Qed.
+Print Assumptions C10_public_add.
+
+(* remove_address removes exactly the given address. *)
+Theorem C10_public_remove :
+  forall a l x, NoDup l -> (In x (remove_addr a l) <-> In x l /\ x <> a).
+Proof. exact remove_addr_spec. Qed.
+Print Assumptions C10_public_remove.
+
+(* register_listen_address keeps every listen address with and without /p2p/<local>. *)
+Theorem C10_listen_set :
+  forall c ls a,
+  In a (listen_set c ls) <-> exists l, In l ls /\ (a = l \/ a = l ++ [P2p (local_peer c)]).
+Proof. exact listen_set_spec. Qed.
+Print Assumptions C10_listen_set.
 
 (* The victim choice can always be resolved (capacity >= 1): the model never gets stuck on the
    validation of the implementation's choice when a minimal record is supplied. *)
@@ -221,22 +457,28 @@ Proof. exact insert_pick_min_ok. Qed.
 Print Assumptions C10_choice_resolvable.
 
 (* non-vacuity: capacity 2, a listen address registered on the way, a multi-address add in the
-   implementation's order, an eviction, a full dial episode under an outbound limit *)
+   implementation's order, an eviction, dial failures of several kinds, a full dial episode under
+   an outbound limit, a dial_address episode, public addresses *)
 Example C10_nonvacuous :
   let c := mkCfg true false true true false 0 (Some 3%nat) in
-  let k := mkScores 2 1 100 (-100) (-2147483648) in
+  let k := mkScores 2 1 100 [([1%N], -2147483648); ([], -100)]%Z in
   let a1 := [Ip4 Priv 1; Tcp 1; P2p 1] in
   let a2 := [Ip4 Glob 2; Tcp 2; Ws; P2p 1] in
   let a3 := [Dns 3; Tcp 3; P2p 1] in
   let h := [OListen [Ip4 Unspec 0; Tcp 30];
             OAdd 1 [a2; [Ip4 Loop 9; Tcp 30; P2p 1]; a1; a2] [a1; a2] [];
-            ODialFailure a1 ConnFailure None; OAdd 1 [a3] [a3] [a1];
+            ODialFailure a1 (EDns DeResolveError) None; OAdd 1 [a3] [a3] [a1];
             OHold 2;
-            ODial 1 1 [a3] [];
-            OAdd 1 [a2] [a2] []] in
-  get 1 (bk (final c k h)) = Some [(a2, 1%Z); (a3, 100%Z)] /\
+            ODial 1 1 [ENegotiation NeTimeout] [a3] [];
+            OAdd 1 [a2] [a2] [];
+            ODialAddr a2 (Some (EAddress AeInvalidProtocol)) [];
+            ODialAddr [Ip4 Unspec 0; Tcp 30; P2p 0] None [];
+            OPublicAdd [Dns 5; Tcp 5]; OPublicAdd [Dns 5; Tcp 5; P2p 1]] in
+  get 1 (bk (final c k h)) = Some [(a2, -2147483648); (a3, 100)]%Z /\
   snd (run c k init h) =
     [RListen; RAdd 2 false; RIns (Some Updated); RAdd 1 false; RHold 2;
-     RDial (DTried [(a3, 1%Z)] []); RAdd 1 false] /\
+     RDial (DTried [(a3, 1%Z)] []); RAdd 1 false; RDialAddr (DAOk TWs 1) false;
+     RDialAddr DASelf false; RPub (PubAdded true); RPub PubDifferent] /\
+  pubs (final c k h) = [[Dns 5; Tcp 5; P2p 0]] /\
   supported c a2 = true /\ route c a2 = TWs.
 Proof. vm_compute. repeat split; reflexivity. Qed.
